@@ -19,6 +19,7 @@ are absent from / additional to the current tree; on the confirmed tree this mod
 from __future__ import annotations
 
 import ast
+import copy
 from .errors import clone
 import json
 import pathlib
@@ -100,6 +101,308 @@ def make_inventory(modules: dict) -> dict:
             if entry:
                 inv[f'{mname}:{scope}'] = entry
     return inv
+
+
+def _literal(e) -> bool:
+    if isinstance(e, ast.Constant):
+        return True
+    if isinstance(e, ast.UnaryOp) and isinstance(e.op, ast.USub) and isinstance(e.operand, ast.Constant):
+        return True
+    if isinstance(e, (ast.Tuple, ast.List, ast.Set)):
+        return all(_literal(x) for x in e.elts)
+    if isinstance(e, ast.Dict):
+        return all(k is not None and _literal(k) for k in e.keys) and all(_literal(v) for v in e.values)
+    return False
+
+
+def _constant_defs(body):
+    """{name: literal expr} for `NAME = <literal>` / `NAME: T = <literal>` statements of a module or class body that bind the
+    name exactly once there."""
+    seen, out = {}, {}
+    for st in body:
+        tgts = st.targets if isinstance(st, ast.Assign) else [st.target] if isinstance(st, (ast.AnnAssign, ast.AugAssign)) else []
+        for t in tgts:
+            for x in ast.walk(t):
+                if isinstance(x, ast.Name):
+                    seen[x.id] = seen.get(x.id, 0) + 1
+        if isinstance(st, (ast.Assign, ast.AnnAssign)) and st.value is not None and len(tgts) == 1 and \
+                isinstance(tgts[0], ast.Name) and _literal(st.value):
+            out[tgts[0].id] = st.value
+    return {k: v for k, v in out.items() if seen.get(k) == 1}
+
+
+def constant_names(modules: dict) -> dict:
+    """Baseline: the literal constants every module / class scope defines (names only)."""
+    inv = {}
+    for mname, mod in sorted(modules.items()):
+        for scope, node, _fns in scopes_of(mod.tree):
+            names = sorted(_constant_defs(node.body))
+            if names:
+                inv[f'{mname}:{scope}'] = names
+    return inv
+
+
+def load_constant_inventory():
+    if not INVENTORY.is_file():
+        return None
+    return json.loads(INVENTORY.read_text()).get('constants')
+
+
+def _fresh_literal(e):
+    """A new node for a literal (never deepcopy: nodes carry parent links)."""
+    if isinstance(e, ast.UnaryOp):
+        return ast.UnaryOp(op=ast.USub(), operand=ast.Constant(value=e.operand.value))
+    if isinstance(e, (ast.Tuple, ast.List, ast.Set)):
+        kw = {'ctx': ast.Load()} if not isinstance(e, ast.Set) else {}
+        return type(e)(elts=[_fresh_literal(x) for x in e.elts], **kw)
+    if isinstance(e, ast.Dict):
+        return ast.Dict(keys=[_fresh_literal(k) for k in e.keys], values=[_fresh_literal(v) for v in e.values])
+    return ast.Constant(value=e.value)
+
+
+class _FoldNames(ast.NodeTransformer):
+    def __init__(self, mod_consts, cls_consts):
+        self.m, self.c = mod_consts, cls_consts
+        self.n = 0
+
+    def visit_Name(self, node):
+        if isinstance(node.ctx, ast.Load) and node.id in self.m:
+            self.n += 1
+            return ast.copy_location(_fresh_literal(self.m[node.id]), node)
+        return node
+
+    def visit_Attribute(self, node):
+        self.generic_visit(node)
+        if isinstance(node.ctx, ast.Load) and isinstance(node.value, ast.Name) and node.value.id in ('self', 'cls') and \
+                node.attr in self.c:
+            self.n += 1
+            return ast.copy_location(_fresh_literal(self.c[node.attr]), node)
+        return node
+
+
+def fold_new_constants(modules: dict, baseline: dict, log: list):
+    """A literal that was given a name after the baseline was confirmed (`_LOG_TEMPLATE = '...'`, `QUEUE_SIZE = 10000` at module
+    or class level, bound once) is written back where it is used - the rules see the literal the confirmed tree had there."""
+    for mname, mod in modules.items():
+        mod_new = {}
+        for scope, node, _fns in scopes_of(mod.tree):
+            defs = _constant_defs(node.body)
+            known = set(baseline.get(f'{mname}:{scope}', []))
+            new = {k: v for k, v in defs.items() if k not in known}
+            if not new:
+                continue
+            if node is mod.tree:
+                mod_new = new
+            elif isinstance(node, ast.ClassDef):
+                f = _FoldNames({}, new)
+                for st in node.body:
+                    if isinstance(st, (ast.FunctionDef, ast.AsyncFunctionDef)):
+                        f.visit(st)
+                if f.n:
+                    log.append(f'NORMALISED {mname}: {f.n} uses of new class constants {sorted(new)} of {node.name} folded')
+        if mod_new:
+            f = _FoldNames(mod_new, {})
+            for st in mod.tree.body:
+                if isinstance(st, (ast.Assign, ast.AnnAssign)) and any(
+                        isinstance(t, ast.Name) and t.id in mod_new
+                        for t in (st.targets if isinstance(st, ast.Assign) else [st.target])):
+                    continue
+                # functions that rebind the name locally are left alone
+                for fn in [x for x in ast.walk(st) if isinstance(x, (ast.FunctionDef, ast.AsyncFunctionDef, ast.Lambda))]:
+                    pass
+                f.visit(st)
+            if f.n:
+                ast.fix_missing_locations(mod.tree)
+                log.append(f'NORMALISED {mname}: {f.n} uses of new module constants {sorted(mod_new)[:6]} folded')
+
+
+def _callee_key(c, cls_name):
+    f = c.func
+    if isinstance(f, ast.Attribute) and isinstance(f.value, ast.Name) and f.value.id in ('self', 'cls') and cls_name:
+        return f'{cls_name}.{f.attr}'
+    return f.id if isinstance(f, ast.Name) else f.attr if isinstance(f, ast.Attribute) else None
+
+
+def _calls_with_class(tree):
+    """(call, name of the innermost enclosing class or None) for every call of a module."""
+    def rec(node, cls_name):
+        for ch in ast.iter_child_nodes(node):
+            if isinstance(ch, ast.ClassDef):
+                yield from rec(ch, ch.name)
+            else:
+                if isinstance(ch, ast.Call):
+                    yield ch, cls_name
+                yield from rec(ch, cls_name)
+    yield from rec(tree, None)
+
+
+def keyword_callees(modules: dict) -> list:
+    """Baseline: callees that the confirmed tree calls with keyword arguments somewhere - simple names, and `Class.method` for
+    calls through self / cls (Class = the class the call is written in)."""
+    out = set()
+    for mod in modules.values():
+        for c, cls_name in _calls_with_class(mod.tree):
+            if any(k.arg for k in c.keywords):
+                nm = _callee_key(c, cls_name)
+                if nm:
+                    out.add(nm)
+    return sorted(out)
+
+
+def load_keyword_callees():
+    if not INVENTORY.is_file():
+        return None
+    return json.loads(INVENTORY.read_text()).get('kw_callees')
+
+
+def keywords_to_positional(repo, kw_callees, log: list):
+    """`Record(a=x, b=y)` / `self._helper(first=x, second=y)` -> positional arguments, for callees of this repository that the
+    confirmed tree only ever calls positionally (passing by keyword is a common tidy-up; the rules read the positions)."""
+    keep = set(kw_callees)
+    params_of = {}
+    # functional records: X = namedtuple('X', 'a b') / namedtuple('X', ['a', 'b'])
+    for mod in repo.modules.values():
+        for st in ast.walk(mod.tree):
+            if isinstance(st, ast.Assign) and len(st.targets) == 1 and isinstance(st.targets[0], ast.Name) and \
+                    isinstance(st.value, ast.Call) and unparse_name(st.value.func) == 'namedtuple' and len(st.value.args) == 2:
+                spec = st.value.args[1]
+                fields = spec.value.replace(',', ' ').split() if isinstance(spec, ast.Constant) and isinstance(spec.value, str) \
+                    else [e.value for e in spec.elts if isinstance(e, ast.Constant)] if isinstance(spec, (ast.List, ast.Tuple)) \
+                    else None
+                if fields:
+                    params_of[st.targets[0].id] = fields if st.targets[0].id not in params_of else None
+
+    def params(name):
+        if name in params_of:
+            return params_of[name]
+        res = None
+        cls = [ci for q in repo.by_simple.get(name, []) for ci in [repo.classes[q]]]
+        fns = [fi for fi in repo.funcs.values() if fi.name == name]
+        if len(cls) == 1 and not fns:
+            ci = cls[0]
+            init = ci.methods.get('__init__')
+            if init is not None:
+                a = init.node.args
+                if not a.vararg and not a.kwarg:
+                    res = [x.arg for x in a.args[1:]]
+            elif any(unparse_name(b) in ('NamedTuple',) for b in ci.node.bases) or \
+                    any('dataclass' in unparse_name(d) for d in ci.node.decorator_list):
+                res = [st.target.id for st in ci.node.body if isinstance(st, ast.AnnAssign) and isinstance(st.target, ast.Name)]
+        elif len(fns) == 1 and not cls:
+            a = fns[0].node.args
+            if not a.vararg and not a.kwarg and not a.posonlyargs:
+                res = [x.arg for x in a.args]
+                if fns[0].cls is not None and res and res[0] in ('self', 'cls') and \
+                        not any(unparse_name(d) == 'staticmethod' for d in fns[0].node.decorator_list):
+                    res = res[1:]
+        params_of[name] = res
+        return res
+
+    def self_params(mname, cls_name, meth):
+        q = next((q for q in repo.by_simple.get(cls_name, []) if q.startswith(mname + '.')), None)
+        fi = repo.resolve_method(q, meth) if q else None
+        if fi is None:
+            return None
+        a = fi.node.args
+        if a.vararg or a.kwarg or a.posonlyargs:
+            return None
+        res = [x.arg for x in a.args]
+        if res and res[0] in ('self', 'cls') and not any(unparse_name(d) == 'staticmethod' for d in fi.node.decorator_list):
+            res = res[1:]
+        return res
+
+    n = 0
+    for mname, mod in repo.modules.items():
+        for c, cls_name in _calls_with_class(mod.tree):
+            if not (c.keywords and all(k.arg for k in c.keywords)):
+                continue
+            if any(isinstance(a, ast.Starred) for a in c.args):
+                continue
+            key = _callee_key(c, cls_name)
+            if not key or key in keep:
+                continue
+            if '.' in key:
+                ps = self_params(mname, cls_name, c.func.attr) or (params(c.func.attr) if c.func.attr not in keep else None)
+            else:
+                ps = params(key)
+            if not ps:
+                continue
+            kws = {k.arg: k for k in c.keywords}
+            if not set(kws) <= set(ps):
+                continue
+            i = len(c.args)
+            moved = 0
+            while i < len(ps) and ps[i] in kws:
+                c.args.append(kws.pop(ps[i]).value)
+                i += 1
+                moved += 1
+            if moved:
+                c.keywords = [k for k in c.keywords if k.arg in kws]
+                n += 1
+    if n:
+        log.append(f'NORMALISED {n} calls of repository callees: keyword arguments written positionally')
+
+
+def unparse_name(e) -> str:
+    return e.id if isinstance(e, ast.Name) else e.attr if isinstance(e, ast.Attribute) else \
+        unparse_name(e.func) if isinstance(e, ast.Call) else ''
+
+
+class _RenameLocal(ast.NodeTransformer):
+    def __init__(self, mapping):
+        self.mapping = mapping
+
+    def visit_Name(self, node):
+        if node.id in self.mapping:
+            return ast.copy_location(ast.Name(id=self.mapping[node.id], ctx=node.ctx), node)
+        return node
+
+
+def expand_local_predicates(modules: dict, log: list):
+    """`def _p(x): <assignments>; return <cond>` nested in a function that ends with `return [not] any/all(_p(v) for v in it)`
+    -> the explicit loop with early return that the quantifier abbreviates (the closure is dropped)."""
+    for mname, mod in modules.items():
+        for fn in [x for x in ast.walk(mod.tree) if isinstance(x, (ast.FunctionDef, ast.AsyncFunctionDef))]:
+            preds = {st.name: st for st in fn.body if isinstance(st, ast.FunctionDef) and len(st.args.args) == 1 and
+                     not st.decorator_list and st.body and isinstance(st.body[-1], ast.Return) and st.body[-1].value is not None
+                     and all(isinstance(b, (ast.Assign, ast.Expr)) and not (isinstance(b, ast.Expr) and not isinstance(b.value, ast.Constant))
+                             for b in st.body[:-1])}
+            if not preds:
+                continue
+            new_body, used = [], set()
+            for st in fn.body:
+                done = False
+                if isinstance(st, ast.Return) and st.value is not None:
+                    v, neg = st.value, False
+                    if isinstance(v, ast.UnaryOp) and isinstance(v.op, ast.Not):
+                        v, neg = v.operand, True
+                    if isinstance(v, ast.Call) and isinstance(v.func, ast.Name) and v.func.id in ('any', 'all') and \
+                            len(v.args) == 1 and isinstance(v.args[0], ast.GeneratorExp) and len(v.args[0].generators) == 1:
+                        ge = v.args[0]
+                        gen = ge.generators[0]
+                        if isinstance(ge.elt, ast.Call) and isinstance(ge.elt.func, ast.Name) and ge.elt.func.id in preds and \
+                                len(ge.elt.args) == 1 and isinstance(ge.elt.args[0], ast.Name) and \
+                                isinstance(gen.target, ast.Name) and ge.elt.args[0].id == gen.target.id and not gen.ifs:
+                            p = preds[ge.elt.func.id]
+                            ren = _RenameLocal({p.args.args[0].arg: gen.target.id})
+                            body = [ren.visit(clone(b)) for b in p.body[:-1] if not isinstance(b, ast.Expr)]
+                            cond = ren.visit(clone(p.body[-1].value))
+                            is_any = v.func.id == 'any'
+                            test = cond if is_any else ast.UnaryOp(op=ast.Not(), operand=cond)
+                            hit = (is_any != neg)       # value returned when the deciding element is found
+                            body.append(ast.If(test=test, body=[ast.Return(value=ast.Constant(value=hit))], orelse=[]))
+                            loop = ast.For(target=clone(gen.target), iter=clone(gen.iter), body=body, orelse=[])
+                            new_body += [ast.copy_location(loop, st), ast.copy_location(ast.Return(value=ast.Constant(value=not hit)), st)]
+                            used.add(p.name)
+                            done = True
+                if not done:
+                    new_body.append(st)
+            if used:
+                others = {n.id for st in new_body if not (isinstance(st, ast.FunctionDef) and st.name in used)
+                          for n in ast.walk(st) if isinstance(n, ast.Name)}
+                fn.body = [st for st in new_body if not (isinstance(st, ast.FunctionDef) and st.name in used and st.name not in others)]
+                ast.fix_missing_locations(fn)
+                log.append(f'NORMALISED {mname}:{fn.name}: quantifier over the local predicate(s) {sorted(used)} written as a loop')
 
 
 def load_inventory():
